@@ -151,3 +151,30 @@ Definition v_resolved (via_histogram : bool) (c : cols) (rv : bool) (lo hi : opt
       end
   | _, _ => 3
   end.
+
+(* tie of the control skeleton: the record translated from util.py against Model.model_skel *)
+Definition kw_code (k : kwname) : Z := match k with KwNperbin => 0 | KwBinsize => 1 | KwNbin => 2 end.
+
+Fixpoint fexpr_eqb (a b : fexpr) : bool :=
+  match a, b with
+  | FDmin, FDmin | FBs, FBs | FIdx, FIdx | FLow, FLow => true
+  | FConst c, FConst d => sf_eqb c d
+  | FAdd a1 a2, FAdd b1 b2 | FMul a1 a2, FMul b1 b2 => fexpr_eqb a1 b1 && fexpr_eqb a2 b2
+  | _, _ => false
+  end.
+
+Definition skel_eqb (a b : skel) : bool :=
+  Bool.eqb (sk_clear_first a) (sk_clear_first b) && Bool.eqb (sk_y_forces_rev a) (sk_y_forces_rev b)
+  && Bool.eqb (sk_w_forces_rev a) (sk_w_forces_rev b) && Bool.eqb (sk_limits_first a) (sk_limits_first b)
+  && zlist_eqb (map kw_code (sk_binner_order a)) (map kw_code (sk_binner_order b))
+  && err_eqb (sk_none_error a) (sk_none_error b) && sf_eqb (sk_hist_default_bs a) (sk_hist_default_bs b)
+  && Bool.eqb (sk_hist_nbin_over_bs a) (sk_hist_nbin_over_bs b) && Bool.eqb (sk_more_forces_rev a) (sk_more_forces_rev b)
+  && (let '(a1, a2, a3) := sk_edges a in let '(b1, b2, b3) := sk_edges b in
+      fexpr_eqb a1 b1 && fexpr_eqb a2 b2 && fexpr_eqb a3 b3)
+  && Bool.eqb (sk_num_skips_edges a) (sk_num_skips_edges b) && Bool.eqb (sk_stats_iff_rev a) (sk_stats_iff_rev b)
+  && err_eqb (sk_no_hist_error a) (sk_no_hist_error b) && (sk_single_size a =? sk_single_size b)
+  && (sk_merge_min a =? sk_merge_min b) && Bool.eqb (sk_merge_if_last_differs a) (sk_merge_if_last_differs b)
+  && err_eqb (fst (sk_len_errors a)) (fst (sk_len_errors b)) && err_eqb (snd (sk_len_errors a)) (snd (sk_len_errors b))
+  && err_eqb (sk_empty_sel_error a) (sk_empty_sel_error b).
+
+Definition src_skel_agrees (s : skel) : bool := skel_eqb s model_skel.
